@@ -7,8 +7,10 @@ import itertools
 import os
 import sys
 
+import clicorr
 import core
 import py2coq
+import py2coq_cli
 import py2coq_met
 
 TRUSTED = [
@@ -22,15 +24,33 @@ TRUSTED = [
     "the message expression of `raise ValueError(f\"...\")` is not evaluated by the embedding (only the exception class is compared)",
     "what (B) does not cover and (A) does: _parse_met/parse_config_dict (dict -> MetConfig, the call of validate in BLDFMConfig.__post_init__) and the drivers' step range",
     "yaml/dataclasses machinery of CPython",
+    "Model/Cli.v (the command-line driver cli.cmd_run / _save_plots) is hand-written; tied to bldfm/cli.py (B) for all worlds and arguments: harness/py2coq_cli.py "
+    "re-translates cmd_run and _save_plots statement by statement (sub-classing C14's driver translator; fail closed on try/except, break/continue, filters, "
+    "sorted/set, dicts of results, range(a, b), subtraction, stores of anything but a field of config.parallel, stores inside loops, a run whose result the call "
+    "log cannot follow) into GenCli.v and Bridge/CliBridge.v re-proves gen = model on every run; (A) by differential execution of cmd_run on real YAML files "
+    "(recorders in place of the single run, plot_footprint_field and Figure.savefig) compared inside Coq with the model run on Model/CliExec.v's world",
+    "harness/py2coq_cli.py: the meaning it gives to the fragment - `config = load_config(..)` as a match on w_load (None = it raises and nothing else happens), "
+    "`if flag: <logging>; return` as an early outcome, attribute stores into the module bldfm.config as updates of a record of three optional values, the single "
+    "run as a function of the settings stored SO FAR, the hidden call log w_calls, f-strings without conversions as string concatenation over w_str, `a, b = d` as "
+    "w_unpack2; what it ignores for the value: docstrings, initialize(), get_logger, logging calls with side-effect-free arguments (and loops of nothing else), "
+    "matplotlib set-up statements, style keywords of plot_footprint_field / ax.plot / savefig, plt.close",
+    "of matplotlib only: savefig saves the figure that plot_footprint_field / ax.plot were handed the axes of (modelled, not verified); cli.main / argparse are "
+    "not translated (main is only required to call cmd_run(args) exactly once); (A) repeats every 5th observed invocation through cli.main() with the command line",
 ]
 ASSUMPTIONS = [
     "values of the forcing fields are opaque to MetConfig (it only selects and forwards them); tokens are distinct integers",
     "as in Model/Met.v: a field is absent (None), a list, or a scalar that is neither None nor a list; mol, wind_speed, wind_dir are never None; "
     "the step index is a non-negative int (Python's negative indexing is outside the model, whose index is a nat)",
+    "command-line driver (Model/Cli.v): args.dry_run / args.plot are booleans (argparse store_true); load_config either returns a configuration or raises; "
+    "run_bldfm_single returns (a failing single run is outside the model; the translator rejects code that would swallow one); the single run may depend on the "
+    "three runtime settings only through their values at the time of the call; C16_cli_plot_names_*: the rendered timestamps contain no underscore "
+    "(the separator collision without that hypothesis is recorded as an Example, as is the shared file name of two towers with the same name)",
 ]
 BRIDGE_LEMMAS = ["bridge_fields", "bridge_n_timesteps", "bridge_get_step", "bridge_validate",
                  "bridge_validate_outcomes", "bridge_get_step_index_error", "bridge_n_timesteps_value"]
 THEOREMS = ["C16_steps", "C16_get_step", "C16_reject", "C16_accept", "C16_series_total"]
+THEOREMS_CLI = ["C16_cli_runs", "C16_cli_results", "C16_cli_calls_traced", "C16_cli_dry_run", "C16_cli_settings", "C16_cli_plots",
+                "C16_cli_plot_names_injective", "C16_cli_plot_names_nodup", "C16_cli_multitower", "C16_cli_run_is_met_step", "C16_cli_runs_have_steps"]
 
 
 def _impl():
@@ -285,7 +305,16 @@ def run_bridge(ctx):
 
 def check(ctx):
     core.check_properties_file(ctx, "Properties/C16.v", THEOREMS, core.AX_NONE)
+    core.check_properties_file(ctx, "Properties/C16Cli.v", THEOREMS_CLI, core.AX_NONE)
     run_bridge(ctx)
+    # the command-line driver: (B) cmd_run / _save_plots from the current source -> GenCli.v -> Bridge/CliBridge.v, (A) observed invocations vs Model/Cli.v
+    py2coq_cli.run(ctx)
+    try:
+        clicorr.check_cli(ctx)
+    except Exception:
+        import traceback
+
+        ctx.fail("correspondence", "C16:cli-observation-crashed", traceback.format_exc())
     cp = _impl()
     cases = list(space(ctx))
     exp = []
@@ -391,10 +420,12 @@ def oracle(ctx, hints):
             last = met
     return [{"signature": sig, "what": "MetConfig %s: met=%r%s gives %r, the property demands %r" % (sig, met, (" (derived from a configuration object built for met=%r whose n_timesteps had been read)" % prev) if prev else "", got, want),
              "replay": {"met": met, "previous_met": prev, "impl": got, "spec": want, "how": "bldfm.config_parser.parse_config_dict({'domain':..,'towers':..,'met': met}) then n_timesteps/get_step; codes -993/-991: the same forcing obtained from the previous configuration object by dataclasses.replace / by assigning the fields differs"}}
-            for sig, (size, met, got, want, prev) in found.items()]
+            for sig, (size, met, got, want, prev) in found.items()] + clicorr.oracle_cli(ctx, hints)
 
 
 def replay(body):
+    if "cli" in body:
+        return clicorr.replay_cli(body)
     cp = _impl()
     met = body["met"]
     _PREV[:] = []
